@@ -864,7 +864,7 @@ impl Property for C12 {
     }
     fn runs(&self, tier: Tier) -> usize {
         match tier {
-            Tier::Quick => 6000,
+            Tier::Quick => 12_000,
             Tier::Thorough => 120_000,
         }
     }
